@@ -97,7 +97,7 @@ def range_checks(ctx, F):
             else:
                 ctx.bad('AGREE-C28d', f, 'range end compared with its limit as `end %s limit`: every sibling check uses `end > limit` / `end <= limit`; this one rejects an artifact that ends '
                         'exactly at the limit, which is where the writers put the last one' % rel, line=st.get('l'), sink='range-end', detail='range-end-relation:' + rel)
-    ctx.floor('AGREE-C28d', n, 4, 'range-end vs limit comparisons')
+    ctx.floor('AGREE-C28d', n, 2, 'range-end vs limit comparisons')
 
 
 def _truncate(ctx, F, rule='FLOW-C28f'):
